@@ -66,6 +66,10 @@ class C13(Prop):
     pid = "C13"
     lean_module = "RxModel.Props.C13"
     design_ref = "DESIGN.md §6 C13"
+    # transcription pins (DESIGN II.7, weakest tie): the token text of the hand-transcribed files is the one the model was made from
+    tie_modules = {
+        "RxModel.GenTie.PinsCold": [],
+    }
     rule = ("random operator trees (depth<=5) over cold sources (of, of_option, of_result, of_fn, start, from_iter, "
             "repeat, empty, never, throw, create, defer) with every stateful operator of the catalogue (take, skip, "
             "scan, distinct*, last, default_if_empty, buffer_with_count, pairwise, zip/merge/… queues); ONE pipeline "
